@@ -41,10 +41,9 @@ from gen import cprog  # noqa: E402
 CORPUS = os.path.join(common.VERIF, "corpus", "C10")
 GCC = "gcc -std=c11 -pedantic-errors -fsyntax-only"
 CLANG = "clang-14 -std=c11 -pedantic-errors -fsyntax-only"
+FID_COND_ABORT = "cond-nonscalar-abort"     # `s ? 1 : 2` with a struct s: assertion failure in funcjnz, no diagnostic
 DIAG_ANY = re.compile(r"^[^:\n]+:\d+:\d+: error: \S|^[^:\n ]+: \S", re.M)
 
-FID_VOL_INCDEC = "volatile-incdec-store"
-FID_LDBL_CONV = "long-double-conversion"
 
 
 # ----------------------------------------------------------------------------- running many compilations
@@ -102,7 +101,8 @@ def one(cmd, text, path):
     with open(path, "wb") as f:
         f.write(text if isinstance(text, bytes) else text.encode("utf-8"))
     p = subprocess.run(cmd.split() + [path], stdout=subprocess.DEVNULL, stderr=subprocess.PIPE)
-    return p.returncode, p.stderr.decode("utf-8", "replace")
+    rc = p.returncode if p.returncode >= 0 else 128 - p.returncode       # as a shell reports a signal
+    return rc, p.stderr.decode("utf-8", "replace")
 
 
 # ----------------------------------------------------------------------------- which site fired
@@ -185,7 +185,7 @@ def make_hosts(ck, bt, cc, n):
 
 
 # ----------------------------------------------------------------------------- shrinking
-def ddmin(lines, keep, test, budget=120):
+def ddmin(lines, keep, test, budget=160):
     """delta debugging over the lines not in `keep` (indices); test(list of lines) -> still failing?"""
     idx = [i for i in range(len(lines)) if i not in keep]
     n = 2
@@ -229,8 +229,9 @@ class Judge:
     def bump(self, d, k):
         d[k] = d.get(k, 0) + 1
 
-    def shrink(self, text, oracle):
-        """smaller program that cproc-qbe still accepts and (oracle) gcc and clang still reject"""
+    def shrink(self, text, oracle, want_rc=0):
+        """smaller program that cproc-qbe still accepts (ends with status want_rc) and (oracle) gcc and clang
+        still reject"""
         if isinstance(text, bytes):
             return text.decode("latin-1")
         lines = text.split("\n")
@@ -238,7 +239,7 @@ class Judge:
 
         def test(ls):
             t = "\n".join(ls) + "\n"
-            if one(self.cc, t, self.tmp)[0] != 0:
+            if one(self.cc, t, self.tmp)[0] != want_rc:
                 return False
             if oracle:
                 return one(GCC, t, self.tmp)[0] != 0 and one(CLANG, t, self.tmp)[0] != 0
@@ -278,11 +279,12 @@ class Judge:
             self.abnormal += 1
             if ("abn", sitekey) not in self.accepted_sites:
                 self.accepted_sites.add(("abn", sitekey))
-                self.ck.violation({"kind": "rejected-without-diagnostic", "stream": stream, "site": sitekey,
+                self.ck.report({"kind": "rejected-without-diagnostic", "stream": stream, "site": sitekey,
                                    "template": label, "position": pos,
-                                   "program": text if isinstance(text, str) else text.decode("latin-1"),
+                                   "program": self.shrink(text, oracle, rc) if stream == "mutation" else
+                                   (text if isinstance(text, str) else text.decode("latin-1")),
                                    "exit_status": rc, "stderr": err[-600:],
-                                   "what": "status %d / stderr is not a diagnostic" % rc})
+                                   "what": "status %d / stderr is not a diagnostic" % rc}, fid=fid)
             return False
         self.bump(self.by_site, self.matcher.fired(err))
         return True
@@ -381,7 +383,8 @@ def run_catalogue(ck, bt, cc, cat, hosts, judge, reps):
 # ----------------------------------------------------------------------------- stream 2: unsupported features
 UNSUPPORTED_SITES = {
     "volatile store": [("qbe.c", "funcstore", "volatile store is not yet supported")],
-    "long double at run time": [("qbe.c", "qbetype", "long double is not yet supported")],
+    "long double at run time": [("qbe.c", "qbetype", "long double is not yet supported"),
+                                ("qbe.c", "convert", "long double is not yet supported")],
     "_Atomic": [("decl.c", "typequal", "_Atomic type qualifier is not yet supported"),
                 ("decl.c", "declspecs", "_Atomic is not yet supported")],
     "_Complex": [("decl.c", "declspecs", "_Complex is not yet supported")],
@@ -428,7 +431,7 @@ def gen_unsupported(rng, n):
                         rng.choice(["c10_s = c10_u;", "c10_s.c10_a = 1;"]), None))
         elif k == 6 and ty != "_Bool":
             op = rng.choice(["c10_v++;", "++c10_v;", "c10_v--;", "--c10_v;"])
-            out.append(("volatile store", "stmt", v, op, FID_VOL_INCDEC))
+            out.append(("volatile store", "stmt", v, op, None))
         elif k == 7:
             out.append(("volatile store", "expr", pre + v, "c10_v = %s" % val, None))
     # long double where code must be generated for it
@@ -447,10 +450,10 @@ def gen_unsupported(rng, n):
         ("expr", ld, "c10_ld ? 1 : 2", None),
         ("expr", ld, "(int)c10_ld", None),
         ("expr", "static double c10_d;", "c10_d + 1.0L", None),
-        ("stmt", "static double c10_d;", "c10_d = (long double)c10_d;", FID_LDBL_CONV),
-        ("stmt", "static float c10_d;", "c10_d = (long double)c10_d;", FID_LDBL_CONV),
-        ("stmt", "static int c10_d;", "c10_d = (long double)c10_d;", FID_LDBL_CONV),
-        ("stmt", "static double c10_d; static int c10_i;", "c10_i = (long double)c10_d > 1;", FID_LDBL_CONV),
+        ("stmt", "static double c10_d;", "c10_d = (long double)c10_d;", None),
+        ("stmt", "static float c10_d;", "c10_d = (long double)c10_d;", None),
+        ("stmt", "static int c10_d;", "c10_d = (long double)c10_d;", None),
+        ("stmt", "static double c10_d; static int c10_i;", "c10_i = (long double)c10_d > 1;", None),
         ("stmt", "", "long double c10_l = 1;", None),
     ]
     for kind, dec, code, fid in forms:
@@ -847,7 +850,47 @@ def m_static_assert(L, rng):
     return L[:i] + ["\t" + s] + L[i:], "failing static assertion"
 
 
+def m_eq_nullconst(L, rng):
+    c = [i for i, ln in enumerate(L) if re.match(r"^\t+out\(\(long\)\((.*)\)\);$", ln)]
+    if not c:
+        return None
+    i = rng.choice(c)
+    m = re.match(r"^(\t+)out\(\(long\)\((.*)\)\);$", L[i])
+    op = rng.choice(["==", "!="])
+    cast = rng.choice(["(double)", "(long)", "(float)", "(unsigned char)"])
+    a, b = "(void *)0", "%s(%s)" % (cast, m.group(2))
+    if rng.random() < 0.5:
+        a, b = b, a
+    return L[:i] + ["%sout((long)(%s %s %s));" % (m.group(1), a, op, b)] + L[i + 1:], "(void *)0 %s arithmetic operand" % op
+
+
+def m_ptr_sub_incomplete(L, rng):
+    c = _body_starts(L)
+    if not c:
+        return None
+    i = rng.choice(c)
+    t = rng.choice(["int", "char", "double"])
+    return L[:i] + ["\t%s (*c10_p)[3] = 0; %s (*c10_q)[] = 0; (void)(c10_p - c10_q);" % (t, t)] + L[i:], \
+        "pointer to complete array minus pointer to incomplete array"
+
+
+def m_incdec_incomplete(L, rng):
+    c = _body_starts(L)
+    if not c:
+        return None
+    i = rng.choice(c)
+    d = rng.choice(["void *c10_p = 0;", "struct c10_inc *c10_p = 0;", "int (*c10_p)[] = 0;", "void (*c10_p)(void) = 0;"])
+    op = rng.choice(["c10_p++;", "++c10_p;", "c10_p--;", "--c10_p;"])
+    return L[:i] + ["\t" + d + " " + op] + L[i:], "++/-- on a pointer to an incomplete or function type: %s %s" % (d, op)
+
+
+FID_BY_KIND = {"eq-nullconst-arith": "eq-nullptr-const-vs-arith", "ptr-sub-incomplete": "ptr-sub-right-incomplete",
+               "incdec-incomplete": "incdec-pointer-incomplete"}
+
 MUTATORS = [
+    ("eq-nullconst-arith", m_eq_nullconst, [S("expr.c", "mkbinaryexpr", "invalid operands to '%s' operator")]),
+    ("ptr-sub-incomplete", m_ptr_sub_incomplete, [S("expr.c", "mkbinaryexpr", "pointer operand to '-' must be to complete object type")]),
+    ("incdec-incomplete", m_incdec_incomplete, [S("expr.c", "mkbinaryexpr", "pointer operand to '+' must be to complete object type")]),
     # (name, function, diagnostic sites of which at least one must exist in the current sources)
     ("undeclared-identifier", m_undeclared, [S("expr.c", "primaryexpr", "undeclared identifier: %s")]),
     ("duplicate-case", m_dupcase, [S("qbe.c", "switchcase", "multiple 'case' labels with same value")]),
@@ -921,7 +964,8 @@ def run_mutations(ck, bt, cc, hosts, judge, sitekeys, per_kind):
         name, text, what = jobs[i]
         stats[name]["gcc_and_clang_reject"] += 1
         gmsg = [ln for ln in rg[i][1].splitlines() if "error" in ln][:1]
-        ok = judge.result("mutation", name, what, "rewrite", text, r, oracle=True,
+        fid = FID_COND_ABORT if name == "struct-as-scalar" and "? 1 : 2" in what else FID_BY_KIND.get(name)
+        ok = judge.result("mutation", name + ("/" + fid if fid else ""), what, "rewrite", text, r, oracle=True, fid=fid,
                           extra={"rewrite": what, "gcc": gmsg[0][-200:] if gmsg else ""})
         stats[name]["cproc_rejects"] += ok
     ck.cov["mutation_stream"] = stats
